@@ -171,7 +171,27 @@ def retarget():
     return u
 
 
-UNIVERSES = {"quick": quick, "small": small, "u1": u1, "deep": deep, "retarget": retarget}
+def stale():
+    """A chain whose first headers are days old (initial sync of an old chain): the client is not
+    current until it reaches a header younger than 24 h, so headers and invs from peers other than
+    the sync peer are ignored until then; no checkpoints."""
+    H = [
+        {"id": 0, "parent": -1, "work": 2, "recent": False},
+        {"id": 1, "parent": 0, "work": 2, "recent": False},
+        {"id": 2, "parent": 1, "work": 2, "recent": False},
+        {"id": 3, "parent": 2, "work": 1, "gap": 3300},   # 55 h after its parent: the first recent header
+        {"id": 4, "parent": 3, "work": 2},
+        {"id": 5, "parent": 2, "work": 2, "recent": False},   # old fork 5,6: heavier than 3 alone
+        {"id": 6, "parent": 5, "work": 2, "recent": False},
+        {"id": 7, "parent": 1, "work": 2, "recent": False},   # old fork at height 2 (tie)
+    ]
+    B = [[1], [2], [1, 2], [3], [2, 3], [3, 4], [4], [5], [5, 6], [2, 5, 6], [1, 2, 3], [7], [6]]
+    u = _mk(H, {}, 2, [0, 4], [3, 6], 2, 3, batches=B, init_chains=[(0,), (0, 1, 2), (0, 1, 2, 3)])
+    u["base_hours_ago"] = 72
+    return u
+
+
+UNIVERSES = {"quick": quick, "small": small, "u1": u1, "deep": deep, "retarget": retarget, "stale": stale}
 
 
 def tla(u):
